@@ -137,6 +137,14 @@ def rule_ladder(prop, repo, which):
         al = alts(rv)
         if not any(a[0] == "call" and a[1].name == neutral and not a[2] for a in al):
             why.append("accumulator does not start at %s()" % neutral)
+        # every value the function can return is a state of the ladder accumulator (no shortcut exits)
+        for a in al:
+            ok_alt = (a[0] == "call" and a[1].name in (neutral, dbl)) or (a[0] == "mutcall" and a[1].name == comb) or a[0] == "cycle"
+            if not ok_alt and strip(a) in (("param", 1), ("init", ("deref", 1))) and neutral == "zero":
+                # `if self.is_zero() { return self }` is a correct shortcut: allowed only on the true edge of exactly that test
+                ok_alt = returns_base_only_when_identity(b, tb)
+            if not ok_alt:
+                why.append("returns %s, which is not the ladder accumulator" % show(a, maxdepth=2)[:80])
         # calls inside the loop
         nexts = [bb for bb, t in b.calls() if (t.get("fn") or {}).get("name") == "next"]
         dbls = [bb for bb, t in b.calls() if (t.get("fn") or {}).get("name") == dbl]
@@ -190,6 +198,33 @@ def rule_ladder(prop, repo, which):
         R.check(not why, "%s:ladder:%s" % (prop, path), "%s: %s" % (path, "; ".join(why)), b.file_line(), path,
                 sample={"fn": path, "neutral": neutral, "step": dbl, "conditional": comb})
     return R.finish()
+
+
+def returns_base_only_when_identity(body, tb):
+    """Every assignment `_0 = self` is dominated by the true edge of a test `self.is_zero()`."""
+    sites = []
+    for bb, evs in tb.events.items():
+        for idx, root, rec in evs:
+            if root == 0 and rec["kind"] == "assign":
+                v = strip(tb.rvalue(rec["stmt"]["rv"], bb, idx))
+                if v in (("param", 1), ("init", ("deref", 1))):
+                    sites.append(bb)
+    if not sites:
+        return False
+    for sb in sites:
+        ok = False
+        for bi in sorted(body.reachable()):
+            t = body.blocks[bi]["term"]
+            if t["k"] != "switch":
+                continue
+            d = tb.operand(t["discr"], bi, len(body.blocks[bi]["stmts"]))
+            if d[0] == "call" and d[1].name == "is_zero" and strip(d[2][0]) in (("param", 1), ("init", ("deref", 1))):
+                tt = t["otherwise"] if any(int(v) == 0 for v, _ in t["arms"]) else None
+                if tt is not None and body.pred()[tt] == [bi] and body.dominates(tt, sb):
+                    ok = True
+        if not ok:
+            return False
+    return True
 
 
 def on_every_path(body, start, end, must):
